@@ -207,6 +207,18 @@ def one_pair(ctx, alg, iso, cfg, name, kx, ky, lazy):
                 ctx.violation('sum/difference with a plain number is not blade-wise', cid + [label, str(n_)], config=cfg, form=label, number=str(n_),
                               keys_in=[list(kx)], got=show_elem(iso.mv_to_ref(r_)), expected=show_elem(want_))
         ctx.case(cid + [str(n_)])
+    # the same object after an in-place coefficient update
+    if kx and ctx.rng.random() < 0.08:
+        what = ctx.rng.choice(UN + ['grade', 'sub', 'add'])
+        cid = [name, 'inplace', what, list(kx)]
+        if ctx.want(cid):
+            if what == 'grade':
+                G = tuple(sorted({gen.grade_of(iso.keymask(k)) for k in ctx.rng.sample(list(kx), ctx.rng.randint(1, len(kx)))}))
+                ops.check_inplace_staleness(ctx, alg, cfg, lambda x: x.grade(*G), kx, cid, f'grade{G}')
+            elif what in ('sub', 'add'):
+                ops.check_inplace_staleness(ctx, alg, cfg, (lambda x, y: x - y) if what == 'sub' else (lambda x, y: x + y), kx, cid, what, other_keys=ky)
+            else:
+                ops.check_inplace_staleness(ctx, alg, cfg, lambda x: getattr(x, what)(), kx, cid, what + '()')
     # grade selection
     d = alg.d
     a = ops.generic_mv(alg, kx, 'a')
